@@ -23,7 +23,7 @@ import ast
 from .core import AnalysisError
 from .astutil import unparse
 from .facts import Closure
-from .bitcells import (Unsupported, Param, View, Bits, CU32, ModVal, Maybe, TableVal, Opaque, FuncValue, TOP, PCell, Cell,
+from .bitcells import (Unsupported, Param, View, Bits, CU32, ModVal, Maybe, TableVal, Opaque, FuncValue, TOP, PCell, Cell, Obj,
                        merge_cells, INF)
 from .bitstate import State, Joiner, model_of, UNIVERSE
 from .bitexpr import ExprMixin
@@ -51,6 +51,8 @@ class Interp(ExprMixin, CallMixin, StmtMixin, ObjMixin, Joiner):
         self.reg_tables = set()
         self.src_table = {}
         self.notes = set()
+        self.coerced = set()            # parameters that went through int(x, base=0)
+        self.lookup_normalised = {}     # register parameter -> was it converted before its first table lookup
 
 
 # ---------------------------------------------------------------------------------------------------------------
@@ -72,6 +74,7 @@ class Summary:
         self.overlaps = interp.overlaps
         self.problems = list(interp.problems)
         self.notes = sorted(interp.notes)
+        self.lookup_normalised = dict(interp.lookup_normalised)
         self.imprecise = (state.imprecise or state.forks != UNIVERSE) if state is not None else False
         top = {}
         for b in (self.bits or ()):
@@ -170,6 +173,10 @@ def closure_value(interp, clo):
         v = interp.run_function(FuncValue(fac), [x for x in clo.args], {}, st)
         if st.dead or st.cells:
             raise Unsupported('closure factory {} does not simply return a function'.format(clo.factory))
+    if isinstance(v, Obj) and interp.find_member(v.cls.name, '__call__') is not None:
+        if v.frozen is None:
+            raise Unsupported('constraint object {} is not a module-level constant'.format(clo))
+        return v
     if not isinstance(v, FuncValue):
         raise Unsupported('constraint {} is not a function'.format(clo))
     return v
